@@ -164,7 +164,7 @@ def featureBranches (doc : Json) : List String :=
   let objs := objects doc
   let has (p : Json → Bool) (name : String) : List String := if objs.any p then [name] else []
   has (fun o => hasKey o "in" && hasKey o "content") "doc.param-by-content" ++
-  has (fun o => !hasKey o "in" && hasKey o "content" && hasKey o "required" && !hasKey o "description") "doc.header-by-content" ++
+  has (fun o => (kvs (getD o "headers" Json.null)).any (fun kv => hasKey kv.2 "content")) "doc.header-by-content" ++
   has (fun o => (getBool o "exclusiveMinimum" && !hasKey o "minimum") || (getBool o "exclusiveMaximum" && !hasKey o "maximum")) "doc.exclusive-without-bound" ++
   has (fun o => match o.getObjVal? "multipleOf" with | .ok (.num n) => n.mantissa == 0 | _ => false) "doc.multipleOf-zero" ++
   has (fun o => hasKey o "discriminator") "doc.discriminator" ++
